@@ -102,6 +102,9 @@ def pure(e: ast.AST, cx: Ctx) -> Tuple[str, str]:
         if ty == "jv":          # `x is None` on a loaded JSON value
             r = f"(jv_isinstance {t} [TNoneType])"
             return (r if isinstance(e.ops[0], ast.Is) else f"(negb {r})", "bool")
+        if ty in ("optdeser", "optser"):    # the result of a registry lookup: dict.get(...) is None / is not None
+            r = f"(negb (opt_truthy {t}))"
+            return (r if isinstance(e.ops[0], ast.Is) else f"(opt_truthy {t})", "bool")
         raise Refuse(e, f"`is None` on a value of type {ty}", fn)
     if isinstance(e, ast.BoolOp):
         vals = [pure(v, cx) for v in e.values]
@@ -437,6 +440,14 @@ def translate(repo: str) -> str:
     jerrs = [c for c in classes if c != BASE_ERR and derives(c)]
     if not jerrs:
         raise Refuse(tree, "no JSONSerializationError subclasses", fn)
+    # the model takes `raise E(...)` as "E reaches the caller": the error classes must be ordinary exceptions -- plain classes or
+    # plain @dataclass (a frozen dataclass rejects the attribute assignments that library code makes on a propagating exception)
+    for c in [BASE_ERR] + jerrs:
+        decos = [ast.unparse(x) for x in classes[c].decorator_list]
+        if decos not in ([], ["dataclass"]):
+            raise Refuse(classes[c], f"error class {c} is decorated {decos} (only a plain @dataclass is modelled)", fn)
+        if classes[c].keywords:
+            raise Refuse(classes[c], f"error class {c} has class keywords / a metaclass", fn)
     nxt = max(JERR_CODES.values()) + 1
     codes = {}
     for c in jerrs:
